@@ -3,7 +3,7 @@ from common import *
 import treegen, lexgen, statuslib
 
 PID = "C05"
-TARGETS = ["Run.vo", "Tree_proofs.vo", "Message_proofs.vo", "NonVacuous/C05.vo", "Message_proofs2.vo"]
+TARGETS = ["Run.vo", "Tree_proofs.vo", "Message_proofs.vo", "NonVacuous/C05.vo", "Message_proofs2.vo", "Message_proofs3.vo", "NonVacuous/C05_prefix.vo"]
 IMPORTS = "From VF Require Import Base Show Gen_Errors Status Contrib Lexer Response Conv Tree Scripted Run."
 ALLOWED_AXIOMS = []
 PROFILES = ["debug"]
